@@ -198,7 +198,8 @@ fn enter_transcript(out: &str, prompt_now: usize) -> ([u8; TR], usize) {
 /// output below it and a fresh row showing the (new) prompt with the cursor behind it.
 /// (With the emulator as the sink of the real call the query ran out of 24 GB.)
 /// `scenario`: 0 handler silent, 1..=4 handler writes OUTS[scenario], 5 handler changes
-/// the prompt (a constant per instance: with a symbolic scenario the query ran out of 24 GB)
+/// the prompt, 6 handler writes `x` AND changes the prompt (a constant per instance: with a
+/// symbolic scenario the query ran out of 24 GB)
 fn show_enter_body(valid: usize, scenario: usize) {
     let pre = any_pre_valid(valid);
     kani::assume(printable(&pre));
@@ -206,10 +207,18 @@ fn show_enter_body(valid: usize, scenario: usize) {
         0
     } else if scenario <= 4 {
         1
-    } else {
+    } else if scenario == 5 {
         2
+    } else {
+        3
     };
-    let which: usize = if scenario <= 4 { scenario } else { 0 };
+    let which: usize = if scenario <= 4 {
+        scenario
+    } else if scenario == 6 {
+        1
+    } else {
+        0
+    };
     let new_prompt: usize = kani::any();
     kani::assume(new_prompt < 3);
     // the handler is entered iff the line has a token, i.e. a byte other than a blank
@@ -222,18 +231,18 @@ fn show_enter_body(valid: usize, scenario: usize) {
         }
         i += 1;
     }
-    let out = if dispatch && mode == 1 { OUTS[which] } else { "" };
-    let prompt_now = if dispatch && mode == 2 { new_prompt } else { pre.prompt };
+    let out = if dispatch && (mode == 1 || mode == 3) { OUTS[which] } else { "" };
+    let prompt_now = if dispatch && (mode == 2 || mode == 3) { new_prompt } else { pre.prompt };
     let (e, el) = enter_transcript(out, prompt_now);
     let mut cli = build(&pre, crate::sinks::ExpectSink::<TR>::new(e, el));
     let mut calls = 0usize;
     let r = {
         let mut p = RawCommand::processor(|h: &mut CliHandle<'_, crate::sinks::ExpectSink<TR>, Infallible>, _c: RawCommand<'_>| {
             calls += 1;
-            if mode == 1 {
+            if mode == 1 || mode == 3 {
                 h.writer().write_str(OUTS[which])?;
             }
-            if mode == 2 {
+            if mode == 2 || mode == 3 {
                 h.set_prompt(PROMPTS[new_prompt]);
             }
             Ok(())
@@ -249,7 +258,7 @@ fn show_enter_body(valid: usize, scenario: usize) {
     assert!(t.ok(), "C06/C13: line break, output, line break iff owed, prompt - in this order and nothing else");
     assert!(t.pending == 0, "C15: flushed");
     kani::cover!(valid < 1 || dispatch, "dispatched");
-    kani::cover!(valid < 1 || mode != 2 || (dispatch && new_prompt != pre.prompt), "prompt changed by the handler");
+    kani::cover!(valid < 1 || mode < 2 || (dispatch && new_prompt != pre.prompt), "prompt changed by the handler");
     kani::cover!(valid < 1 || !dispatch, "blank line");
     kani::cover!(valid > 0 || !dispatch, "empty line");
 }
@@ -316,6 +325,7 @@ show_enter_case!(show_enter_v2_xlf, 2, 2);
 show_enter_case!(show_enter_v2_lf, 2, 3);
 show_enter_case!(show_enter_v2_xlfx, 2, 4);
 show_enter_case!(show_enter_v2_prompt, 2, 5);
+show_enter_case!(show_enter_v2_x_and_prompt, 2, 6);
 show_enter_case!(show_enter_v3_silent, 3, 0);
 show_enter_case!(show_enter_v3_x, 3, 1);
 show_enter_case!(show_enter_v3_xlf, 3, 2);
